@@ -78,6 +78,13 @@ CORPUS = [
     "(mul (pow w w) (pow (pow w w) (pow w w)))",
     "(addv (d bff8000000000000) y (addv b (d 3ff8000000000000)))",
     "(mul x (addv (d bff8000000000000) y (addv b (d 3ff8000000000000))))",
+    # the same with a function around it: tan(...).create is outside the arithmetic model (T0=UNMODELLED, T0R=OK)
+    "(pow x (i -2)) ;; (f1 tan (mul (pow x (i -2)) (pow (pow x (i -2)) b)))",
+    # the same next to a Piecewise (outside the guard of the theorem): classified on the failing expression alone
+    "(pw z (lt x w) y true) ;; (mulv (pow (pow (i 0) (addv y w I)) (q 1 2)) (pow (i 0) (addv y w I)) x)",
+    # known finding: atan2(A, A) stays unevaluated for A = zoo*E**x or -3.0*b, atan2(x0, x0) evaluates to pi/4
+    "(f2 atan2 (mul zoo (f1 exp x)) (mul zoo (f1 exp x))) ;; b",
+    "(f2 atan2 (mul b (d c008000000000000)) (mul b (d c008000000000000))) ;; (f1 sin (mul b (d c008000000000000)))",
     # cse returns; the library's subs() crashes on the back-substitution (C10/crash:subs-recursion-after-nan-derivative)
     "(diff (fs f x (f2 beta b I)) x)",
     # known finding: in-band function names; regression cases of the fixed Piecewise-condition defect
@@ -202,12 +209,42 @@ def classify(cls, hints, detail="", tag="C", t_faithful=True, certified=False):
         # every compositional semantics, so back-substitution and input differ only in their canonical form (the
         # constructors add / mul / pow are not injective up to eq on the rebuilt arguments)
         return "C37/unfaithful:rebuild-other-canonical-form"
+    if cls == "unfaithful" and detail.startswith("differs") and "create-evaluates-on-symbols" in hints:
+        # the inputs contain a function node that its own create() left unevaluated on the original arguments but evaluates
+        # once the arguments are Symbols: atan2(A, A) with A = -3.0*b or zoo*E**x (A/A is the float 1.0 / is not 1) is an ATan2
+        # node, atan2(x0, x0) = pi/4
+        return "C37/unfaithful:function-evaluates-on-replacement-symbols"
     return "C37/" + cls
+
+
+def certified_alone(ctx, drv, model, singles):
+    """for each single-expression case: is tree_cse on it eq-unfaithful ('differs') AND certified other-canonical-form
+    (model = library exactly, hypotheses of C37_tree_cse_faithful_wf hold)?"""
+    out = []
+    impl = ctx.run_lines(drv, singles, timeout=600, shards=4)
+    ok = [l if l.startswith("E\t") else "" for l in impl]
+    mod = ctx.run_lines(model, [l for l in ok if l], timeout=600, shards=4)
+    k = 0
+    for l in ok:
+        if not l:
+            out.append(False)
+            continue
+        m = mod[k]
+        k += 1
+        f = dict(p.split("=", 1) for p in m.split("\t")) if m.startswith("CHKC=") else {}
+        parts = l.split("\t")
+        unf = any(p.startswith("#ORACLE:T:unfaithful:differs") or p.startswith("#ORACLE:T:unfaithful:expand-equal") for p in parts)
+        other = any(p.startswith("#ORACLE:") and not p.startswith(("#ORACLE:T:unfaithful:", "#ORACLE:C:unfaithful:")) for p in parts)
+        hints = [p[6:] for p in parts if p.startswith("#HINT:")]
+        out.append(unf and not other and "reserved-funsym" not in hints
+                   and (f.get("T0") == "OK" or f.get("T0R") == "OK") and f.get("GUARD") == "0" and f.get("XC") == "1" and f.get("WF") == "1")
+    return out
 
 
 def explore(ctx, drv, model, cases, stats, search=False):
     if drv is None or model is None:
         return
+    deferred = []
     impl = ctx.run_lines(drv, cases, timeout=1800, shards=16)
     keep, lines = [], []
     for i, line in enumerate(impl):
@@ -235,7 +272,8 @@ def explore(ctx, drv, model, cases, stats, search=False):
         m = mod[k]
         f = dict(p.split("=", 1) for p in m.split("\t")) if m.startswith("CHKC=") else None
         # the faithfulness theorem applies to this very instance and the model reproduces tree_cse exactly
-        certified = bool(f) and f.get("T0") == "OK" and f.get("GUARD") == "0" and f.get("XC") == "1" and f.get("WF") == "1"
+        # (T0R: with the plain node for function create() calls outside the arithmetic model -- the theorems are generic in the constructors)
+        certified = bool(f) and (f.get("T0") == "OK" or f.get("T0R") == "OK") and f.get("GUARD") == "0" and f.get("XC") == "1" and f.get("WF") == "1"
         # ---- oracle on the library's outputs
         t_faithful = not any(o.startswith(("T:unfaithful", "T:crash", "T:exception", "T:hang", "T:backsubst")) for o in oracles)
         for o in oracles:
@@ -249,9 +287,15 @@ def explore(ctx, drv, model, cases, stats, search=False):
                 stats["backsubst_crashes_in_library_subs(C10/crash:subs-recursion-after-nan-derivative)"] = \
                     stats.get("backsubst_crashes_in_library_subs(C10/crash:subs-recursion-after-nan-derivative)", 0) + 1
                 continue
-            ctx.violation(classify(cls, hints, detail, tag, t_faithful, certified),
-                          "%s(es) with es = [%s]: %s %s; outputs: %s" % ("cse" if tag == "C" else "tree_cse", cases[i], cls, detail, sec.get(tag, "")[:400]),
-                          rep)
+            key = classify(cls, hints, detail, tag, t_faithful, certified)
+            what = "%s(es) with es = [%s]: %s %s; outputs: %s" % ("cse" if tag == "C" else "tree_cse", cases[i], cls, detail, sec.get(tag, "")[:400])
+            idx = detail.partition(":")[2]
+            if key == "C37/unfaithful" and detail.startswith("differs:") and idx.isdigit() and " ;; " in cases[i] and deferred is not None:
+                # not certified on the whole list (e.g. another expression of the list is outside the guard of the theorem, or a
+                # create() is outside the model): look at the failing expression on its own before choosing the key
+                deferred.append((cases[i].split(" ;; ")[int(idx)], what, rep))
+                continue
+            ctx.violation(key, what, rep)
         if f is None:
             nbroken += 1
             if nbroken <= 3:
@@ -322,6 +366,16 @@ def explore(ctx, drv, model, cases, stats, search=False):
         if not search and len(ctx.cov["samples"]) < 8 and " => " in csec:
             ctx.cov["samples"].append({"case": cases[i], "cse": csec[:300], "model": m[:200]})
 
+    if deferred:
+        res = certified_alone(ctx, drv, model, [d[0] for d in deferred])
+        for (single, what, rep), cert in zip(deferred, res):
+            if cert:
+                stats["unfaithful_classified_on_the_failing_expression_alone"] = stats.get("unfaithful_classified_on_the_failing_expression_alone", 0) + 1
+                ctx.violation("C37/unfaithful:rebuild-other-canonical-form",
+                              what + " -- the failing expression on its own, es = [%s], is eq-unfaithful in the same way and certified" % single, rep)
+            else:
+                ctx.violation("C37/unfaithful", what, rep)
+
 
 def run(ctx):
     ctx.gate(["C37"])
@@ -373,8 +427,11 @@ def run(ctx):
         "contains a Subs/Derivative node and a NaN (C10/crash:subs-recursion-after-nan-derivative), faithfulness is not judged on that input "
         "(counted in backsubst_crashes_in_library_subs); any other crash / hang of the back-substitution is reported as a violation",
         "key C37/unfaithful:rebuild-other-canonical-form is given to an eq-unfaithful result only when the difference expands to 0 or when, on "
-        "that very instance, the model reproduces tree_cse exactly (T0=OK) and the hypotheses of C37_tree_cse_faithful_wf hold (WF, XC, guard), "
-        "i.e. the factoring is proved faithful under every compositional semantics",
+        "that very instance, the model reproduces tree_cse exactly (T0=OK, or T0R=OK: the generic model run with the plain node for the function "
+        "create() calls that the arithmetic model does not know) and the hypotheses of C37_tree_cse_faithful_wf hold (WF, XC, guard), "
+        "i.e. the factoring is proved faithful under every compositional semantics; when the whole list is not certified (another "
+        "expression of the list is outside the guard, e.g. a Piecewise) the failing expression is run on its own and must be unfaithful "
+        "and certified there, otherwise the generic key C37/unfaithful is reported",
     ]
 
 
